@@ -41,6 +41,19 @@ def hull_cases(draw):
         data = [[a + gen.JITTER[(3 * a + b) % 12], b + gen.JITTER[(a + 5 * b + 2) % 12]] for a, b in cells]
         m = draw(st.integers(1, 30))
         query = [[draw(gen.finite(-2, 14)), draw(gen.finite(-2, 14))] for _ in range(m)]
+    structure = draw(st.sampled_from([None, None, None, "full_grid", "full_grid_north_up", "tilted_lines", "tilted_lines"]))
+    if structure:
+        # gridded data fed back in, and equally sampled survey lines that climb a little along the line (a sheared lattice whose hull is a
+        # parallelogram, not its bounding box): stored line by line; on the doubled integer lattice
+        lattice = True
+        p, r = draw(st.integers(2, 6)), draw(st.integers(2, 5))
+        sep = p + draw(st.integers(0, 3))  # line separation; the total climb along a line (p - 1) stays below it
+        tilt = 1 if structure == "tilted_lines" else 0
+        rows = range(r) if structure != "full_grid_north_up" else range(r - 1, -1, -1)
+        data = [[2 * a, 2 * (sep * b + tilt * a)] for b in rows for a in range(p)]
+        n = len(data)
+        m = draw(st.integers(5, 30))
+        query = [list(q) for q in draw(st.lists(st.tuples(st.integers(-3, 2 * p + 1), st.integers(-3, 2 * (sep * (r - 1) + p) + 1)), min_size=m, max_size=m))]
     # re-occupied stations: some positions occur more than once (the hull does not change), preferably extreme ones
     if draw(st.integers(0, 2)) == 0:
         extreme = sorted(range(len(data)), key=lambda i: (data[i][0], data[i][1]))
@@ -51,7 +64,7 @@ def hull_cases(draw):
     scale = 10.0 ** k
     aspect = draw(st.sampled_from([1.0, 1.0, 0.1, 10.0, 3.0]))
     off = draw(st.sampled_from([0.0, 1.0, -10.0, 100.0, -100.0]))
-    return dict(lattice=lattice, data=data, query=query, scale=scale, aspect=aspect, offset=[off * scale, -off * scale * aspect],
+    return dict(lattice=lattice, structure=structure, data=data, query=query, scale=scale, aspect=aspect, offset=[off * scale, -off * scale * aspect],
                 form=draw(st.sampled_from(["array", "array2d", "grid"])), proj=draw(st.sampled_from([None, None, [2.0, 0.5], [-1.0, 3.0], "polar", [0.8, -0.6, 0.6, 0.8], [1.0, 0.7, 0.0, 1.0], [0.5, 2.0, -1.5, 0.25]])),
                 dshape=draw(st.sampled_from(blocks.shape_options(n))), orders=draw(build.orders_strategy()), extra=draw(st.sampled_from([0, 0, 1, 2])), qextra=draw(st.sampled_from([0, 0, 1])))
 
@@ -157,7 +170,7 @@ def check_hull(case, ctx):
         for s, c in counts.items():
             if c:
                 ctx.label("query_" + s)
-    ctx.label("lattice" if case["lattice"] else "free", "proj" if proj else "noproj", "scale1e%d" % int(np.log10(case["scale"])))
+    ctx.label("lattice" if case["lattice"] else "free", "proj" if proj else "noproj", "scale1e%d" % int(np.log10(case["scale"])), "structure_%s" % (case.get("structure") or "none"))
     ctx.nt(len(hull) >= 5 or case["scale"] >= 1e5)
 
 
